@@ -20,7 +20,11 @@ Nothing here comes from the Python source.  The table is reproduced in DESIGN.md
 | – | NOT SELECTED | data message | unchanged | Reject.req(reason 4, same system bytes); not delivered |
 | – | SELECTED | well-formed data message | unchanged | delivered |
 
-T7 (NOT SELECTED timeout) is a transition of the engine table but not a trigger of the property's alphabet.
+Timers.  E37 treats the expiry of T6 (control transaction), T7 (NOT SELECTED) and T8 (inter-character) as a communication failure: the
+connection is closed (NOT CONNECTED).  Timers are not triggers of the alphabet property C05 quantifies over, so `next` has no rows for
+them (the model's timer inputs map to `Trigger.other`); T7 is a transition of the engine table that nothing performs.  What the code does
+with each timer is stated in `Props/C05.lean` (`C05_timers_in_code`, `C05_timers_keep_state`).  An unsolicited response control message is
+to be answered with Reject.req (reason 3, transaction not open) per E37; C05 makes no statement about it (`C05_unsolicited_rsp_silent`).
 -/
 namespace SecsModel.Spec.E37
 
